@@ -1,1259 +1,17 @@
 // C12 — every API call is memory-safe and total on arbitrary arguments (DESIGN.md §4 C12)
-//
-// libFuzzer target. The byte string is decoded into a PROGRAM over a register file of 8 index
-// values: a register initialisation section followed by up to 12 API calls. Every argument is
-// decoded through a class byte (so byte-level mutation moves between "valid", "near-valid",
-// "out of domain" and "raw" arguments instead of dying in validation), every output buffer is a
-// heap block of EXACTLY the documented size (ASan red zones on both sides), results are written
-// back into registers so that later calls consume them.
-//
-// Oracle (inside the target):
-//   * no sanitizer report, no assertion (library built without NDEBUG: NEVER()/ALWAYS() are live)
-//   * every H3Error return value is one of the 16 documented codes 0..15
-//   * out-of-domain scalar arguments yield their documented code, never success (table below: only
-//     (function, argument) pairs whose code is named in a property statement / the API docs)
-//   * closure: a successful call whose index arguments were all valid cells returns valid cells
-//   * describeH3Error returns a readable NUL-terminated string for every int
-// A violation prints "C12-VIOLATION ..." and traps; libFuzzer saves the input as crash-<sha1>,
-// which is the replay file (run the binary with the file as its only argument).
-#include <cstdarg>
-#include <cfloat>
-#include <climits>
-#include <cmath>
-#include <cstdint>
-#include <cstdio>
-#include <cstdlib>
-#include <cstring>
-#include <string>
-#include <unordered_set>
-#include <vector>
-#include <unistd.h>
-#include <time.h>
-
-extern "C" {
-#include "h3api.h"
-}
-#include "h3ref.hpp"
-
-namespace {
-
-// ------------------------------------------------------------------ byte reader
-struct Rd {
-    const uint8_t *p;
-    size_t n, i = 0;
-    uint8_t u8() { return i < n ? p[i++] : 0; }
-    uint16_t u16() { return (uint16_t)(u8() | (u8() << 8)); }
-    uint32_t u32() { return (uint32_t)u16() | ((uint32_t)u16() << 16); }
-    uint64_t u64() { return (uint64_t)u32() | ((uint64_t)u32() << 32); }
-    bool empty() const { return i >= n; }
-};
-
-// ------------------------------------------------------------------ statistics
-enum { NFN = 80 };
-struct Stats {
-    uint64_t execs = 0, calls = 0, skipped_size = 0, nontrivial_programs = 0;
-    uint64_t by_fn_rc[NFN][17] = {};
-    uint64_t ns_by_op[64] = {};
-    const char *fn_name[NFN] = {};
-    std::unordered_set<uint64_t> behaviours;  // (fn, rc, argument classes)
-    std::unordered_set<uint64_t> traces;      // hash of the (fn, rc, classes) sequence of a non-trivial program
-    std::vector<std::string> samples;
-    uint64_t table_hits = 0;    // calls with an out-of-domain scalar for which the table names a code
-    uint64_t closure_cells = 0; // cells checked by the closure clause
-    std::string frag;
-} ST;
-
-// known findings (known_findings.json, status=known): excluded by construction, counted, so that the campaign continues
-std::vector<std::string> g_known;
-std::vector<uint64_t> g_known_hits;
-bool known(const char *key) {
-    for (size_t i = 0; i < g_known.size(); i++)
-        if (g_known[i] == key) {
-            g_known_hits[i]++;
-            return true;
-        }
-    return false;
-}
-
-bool g_trace = false;
-std::string g_tracebuf;
-uint64_t g_prog_hash;
-bool g_prog_nontrivial;
-
-void dump_fragment() {
-    if (ST.frag.empty()) return;
-    std::string path = ST.frag + "." + std::to_string((long)getpid()) + ".json";
-    FILE *f = fopen(path.c_str(), "w");
-    if (!f) return;
-    fprintf(f, "{\"execs\":%llu,\"calls\":%llu,\"skipped_size\":%llu,\"nontrivial_programs\":%llu,\"table_hits\":%llu,\"closure_cells\":%llu,\n",
-            (unsigned long long)ST.execs, (unsigned long long)ST.calls, (unsigned long long)ST.skipped_size,
-            (unsigned long long)ST.nontrivial_programs, (unsigned long long)ST.table_hits, (unsigned long long)ST.closure_cells);
-    fprintf(f, "\"ns_by_op\":[");
-    for (int i = 0; i < 64; i++) fprintf(f, "%s%llu", i ? "," : "", (unsigned long long)ST.ns_by_op[i]);
-    fprintf(f, "],\n");
-    fprintf(f, "\"excluded_known\":{");
-    for (size_t i = 0; i < g_known.size(); i++) fprintf(f, "%s\"%s\":%llu", i ? "," : "", g_known[i].c_str(), (unsigned long long)g_known_hits[i]);
-    fprintf(f, "},\n\"fn_rc\":{");
-    bool first = true;
-    for (int i = 0; i < NFN; i++) {
-        if (!ST.fn_name[i]) continue;
-        fprintf(f, "%s\"%s\":[", first ? "" : ",", ST.fn_name[i]);
-        for (int r = 0; r < 17; r++) fprintf(f, "%s%llu", r ? "," : "", (unsigned long long)ST.by_fn_rc[i][r]);
-        fprintf(f, "]");
-        first = false;
-    }
-    fprintf(f, "},\n\"behaviours\":[");
-    first = true;
-    for (uint64_t b : ST.behaviours) {
-        fprintf(f, "%s%llu", first ? "" : ",", (unsigned long long)b);
-        first = false;
-    }
-    fprintf(f, "],\n\"traces\":[");
-    first = true;
-    for (uint64_t b : ST.traces) {
-        fprintf(f, "%s%llu", first ? "" : ",", (unsigned long long)b);
-        first = false;
-    }
-    fprintf(f, "],\n\"samples\":[");
-    for (size_t i = 0; i < ST.samples.size(); i++) {
-        std::string e;
-        for (char c : ST.samples[i]) {
-            if (c == '"' || c == '\\') e += '\\';
-            if ((unsigned char)c >= 0x20) e += c;
-        }
-        fprintf(f, "%s\"%s\"", i ? "," : "", e.c_str());
-    }
-    fprintf(f, "]}\n");
-    fclose(f);
-}
-
-[[noreturn]] void violation(const std::string &what) {
-    fprintf(stderr, "C12-VIOLATION %s\n", what.c_str());
-    if (!g_tracebuf.empty()) fprintf(stderr, "program so far: %s\n", g_tracebuf.c_str());
-    fflush(stderr);
-    dump_fragment();
-    __builtin_trap();
-}
-
-std::string sfmt(const char *f, ...) __attribute__((format(printf, 1, 2)));
-std::string sfmt(const char *f, ...) {
-    char buf[1024];
-    va_list ap;
-    va_start(ap, f);
-    vsnprintf(buf, sizeof buf, f, ap);
-    va_end(ap);
-    return buf;
-}
-
-// ------------------------------------------------------------------ exact-size heap buffers
-template <class T>
-struct Buf {
-    T *p;
-    size_t n;
-    explicit Buf(size_t n_, int fill = 0) : n(n_) {
-        p = (T *)malloc(n * sizeof(T));  // exactly n elements; ASan red zone follows immediately
-        if (n && !p) abort();
-        if (n) memset((void *)p, fill, n * sizeof(T));
-    }
-    ~Buf() { free(p); }
-    Buf(const Buf &) = delete;
-};
-
-// ------------------------------------------------------------------ argument classes
-enum CellClass { CC_HEX = 0, CC_PENT = 1, CC_INVALID = 2 };
-int cell_class(uint64_t h) {
-    if (!ref::valid_cell(h)) return CC_INVALID;
-    return ref::is_pentagon(h) ? CC_PENT : CC_HEX;
-}
-
-uint64_t make_valid(uint64_t x, int forceRes = -1, int pentMode = 0) {
-    // x supplies res (4 bits), base cell (7 bits), 15 x 3 bits of digits
-    int res = forceRes >= 0 ? forceRes : (int)(x & 15);
-    int bc = (int)((x >> 4) & 127) % 122;
-    if (pentMode) bc = ref::PENT_BC[((x >> 4) & 127) % 12];
-    int d[16] = {0};
-    uint64_t y = x >> 11;
-    int lead0 = pentMode == 2 ? (int)((x >> 60) & 15) : 0;  // pentagon chain: leading zeros
-    for (int r = 1; r <= res; r++) {
-        d[r] = (int)(y & 7) % 7;
-        y >>= 3;
-        if (pentMode == 1) d[r] = 0;
-        if (pentMode == 2 && r <= lead0) d[r] = 0;
-    }
-    if (ref::is_pent_bc(bc)) {
-        for (int r = 1; r <= res; r++) {
-            if (d[r] == 0) continue;
-            if (d[r] == 1) d[r] = 2 + (int)((x >> 57) % 5);
-            break;
-        }
-    }
-    return ref::make_cell(res, bc, d);
-}
-
-struct VM {
-    Rd rd;
-    uint64_t R[8];
-    explicit VM(const uint8_t *d, size_t n) : rd{d, n} {}
-
-    // ---- decoders
-    uint64_t dec_index() {
-        uint8_t k = rd.u8();
-        uint64_t x = rd.u64();
-        switch (k % 16) {
-            case 14:
-            case 15: {  // a true neighbour of another register (the library is only an input source here)
-                uint64_t h = R[x & 7];
-                if (!ref::valid_cell(h)) return h;
-                H3Index out[7] = {0};
-                if (gridDisk(h, 1, out) != E_SUCCESS) return h;
-                uint64_t n = out[1 + (x >> 3) % 6];
-                return n ? n : h;
-            }
-            case 0: return x;
-            case 1: return make_valid(x);
-            case 2: return make_valid(x, -1, 1);  // pentagon
-            case 3: return make_valid(x, -1, 2);  // pentagon chain descendant
-            case 4: {                             // flipped bits
-                uint64_t h = make_valid(x);
-                int nf = 1 + (int)((x >> 62) & 1) + (int)((x >> 61) & 1);
-                uint8_t b = rd.u8();
-                for (int i = 0; i < nf; i++) h ^= 1ULL << ((b + 23 * i) & 63);
-                return h;
-            }
-            case 5: {  // other mode
-                uint64_t h = make_valid(x);
-                return (h & ~(15ULL << 59)) | ((uint64_t)(rd.u8() & 15) << 59);
-            }
-            case 6: {  // reserved bits
-                uint64_t h = make_valid(x);
-                return h | ((uint64_t)(rd.u8() & 7) << 56);
-            }
-            case 7: {  // digit 7 inside the resolution, or non-7 after it
-                uint64_t h = make_valid(x);
-                int pos = 1 + rd.u8() % 15;
-                int dg = (pos <= ref::res_of(h)) ? 7 : rd.u8() % 7;
-                h &= ~(7ULL << (3 * (15 - pos)));
-                return h | ((uint64_t)dg << (3 * (15 - pos)));
-            }
-            case 8: {  // deleted sub-sequence under a pentagon
-                uint64_t h = make_valid(x, -1, 2);
-                int res = ref::res_of(h);
-                if (!res) return h;
-                int pos = 1 + rd.u8() % res;
-                for (int r = 1; r < pos; r++) h &= ~(7ULL << (3 * (15 - r)));
-                h &= ~(7ULL << (3 * (15 - pos)));
-                return h | (1ULL << (3 * (15 - pos)));
-            }
-            case 9: {  // directed-edge shaped
-                uint64_t h = make_valid(x, -1, (x >> 63) ? 1 : 0);
-                return (h & ~(15ULL << 59) & ~(7ULL << 56)) | (2ULL << 59) | ((uint64_t)(rd.u8() & 7) << 56);
-            }
-            case 10: {  // vertex shaped
-                uint64_t h = make_valid(x, -1, (x >> 63) ? 1 : 0);
-                return (h & ~(15ULL << 59) & ~(7ULL << 56)) | (4ULL << 59) | ((uint64_t)(rd.u8() & 7) << 56);
-            }
-            case 11: {
-                static const uint64_t sp[] = {0, ~0ULL, 0x7fffffffffffffffULL, 0x8000000000000000ULL, 0x08001fffffffffffULL,
-                                              0x08f0000000000000ULL, 0x0800000000000000ULL, 0x08ffffffffffffffULL};
-                return sp[x & 7];
-            }
-            case 12: {  // relative of another register: same parent, other last digit(s)
-                uint64_t h = R[x & 7];
-                int res = (int)((h >> 52) & 15);
-                if (!res) return h;
-                h &= ~(7ULL << (3 * (15 - res)));
-                h |= ((x >> 3) % 7) << (3 * (15 - res));
-                if (res > 1 && ((x >> 8) & 1)) {
-                    h &= ~(7ULL << (3 * (15 - res + 1)));
-                    h |= ((x >> 9) % 7) << (3 * (15 - res + 1));
-                }
-                return h;
-            }
-            default: return R[x & 7];
-        }
-    }
-    uint64_t reg() { return R[rd.u8() & 7]; }
-    int dec_int() {
-        uint8_t k = rd.u8();
-        switch (k % 8) {
-            case 0: return k >> 4;                 // 0..15
-            case 1: return (int)(rd.u8() % 22) - 3;  // -3..18
-            case 2: return (int)rd.u32();
-            case 3: {
-                static const int ex[] = {INT_MIN, INT_MAX, -1, 16, INT_MAX - 1, 1 << 30, -(1 << 30), INT_MIN + 1};
-                return ex[(k >> 3) & 7];
-            }
-            case 4: return rd.u8() % 65;
-            case 5: return -(int)(rd.u8() % 65);
-            case 6: return (k >> 3) & 7;  // 0..7
-            default: return (int)(int16_t)rd.u16();
-        }
-    }
-    int dec_res() {  // mostly valid resolutions
-        uint8_t k = rd.u8();
-        if ((k & 3) != 3) return k >> 4;
-        return dec_int();
-    }
-    int dec_k() {
-        uint8_t k = rd.u8();
-        if ((k & 3) != 3) return (k >> 2) % 7;  // 0..6
-        return dec_int();
-    }
-    uint32_t dec_flags() {
-        uint8_t k = rd.u8();
-        if ((k & 3) != 3) return (k >> 2) & 3;  // valid containment modes; 0 for the legacy functions via & 0
-        if (k & 4) return rd.u32();
-        return (k >> 3);  // 0..31
-    }
-    double dec_double(int kind /*0 lat, 1 lng, 2 other*/) {
-        uint8_t k = rd.u8();
-        switch (k % 12) {
-            case 0: {
-                uint64_t b = rd.u64();
-                double d;
-                memcpy(&d, &b, 8);
-                return d;
-            }
-            case 1:
-            case 2:
-            case 3: {  // in range
-                double u = rd.u32() / 4294967296.0;
-                return kind == 0 ? (u - 0.5) * M_PI : kind == 1 ? (u - 0.5) * 2 * M_PI : (u - 0.5) * 400;
-            }
-            case 4: return NAN;
-            case 5: return INFINITY;
-            case 6: return -INFINITY;
-            case 7: return (k & 16) ? -0.0 : 0.0;
-            case 8: {
-                static const double hg[] = {1e300, -1e308, DBL_MAX, -DBL_MAX, 1e19, -1e19, 4e9, 1e16};
-                return hg[(k >> 4) & 7];
-            }
-            case 9: {
-                static const double tn[] = {DBL_MIN, -DBL_MIN, 4.9e-324, -4.9e-324, 1e-300, DBL_EPSILON, -DBL_EPSILON, 1e-17};
-                return tn[(k >> 4) & 7];
-            }
-            case 10: {
-                static const double sp[] = {M_PI_2, -M_PI_2, M_PI, -M_PI, 2 * M_PI, -2 * M_PI, 3 * M_PI, 100 * M_PI};
-                double e = ((int)rd.u8() - 128) * 1e-15;
-                return sp[(k >> 4) & 7] + e;
-            }
-            default: {  // outer longitude range / beyond
-                double u = rd.u32() / 4294967296.0;
-                return (u - 0.5) * 8 * M_PI;
-            }
-        }
-    }
-    static bool in_latlng_domain(double lat, double lng) { return std::isfinite(lat) && std::isfinite(lng); }
-};
-
-// loops and polygons decoded into aligned heap blocks of exactly numVerts elements
-struct Poly {
-    std::vector<Buf<LatLng> *> blocks;
-    Buf<GeoLoop> *holes = nullptr;
-    GeoPolygon gp;
-    ~Poly() {
-        for (auto *b : blocks) delete b;
-        delete holes;
-    }
-};
-
-void dec_loop(VM &vm, GeoLoop &gl, Poly &P, int maxv, bool coherent, double clat, double clng, double scale) {
-    int nv = vm.rd.u8() % (maxv + 1);
-    auto *b = new Buf<LatLng>((size_t)nv);
-    P.blocks.push_back(b);
-    for (int i = 0; i < nv; i++) {
-        if (coherent && (vm.rd.u8() & 15)) {
-            double a = vm.rd.u16() / 65536.0 * 2 * M_PI, r = scale * (0.3 + vm.rd.u8() / 256.0);
-            b->p[i].lat = clat + r * sin(a);
-            b->p[i].lng = clng + r * cos(a);
-        } else {
-            b->p[i].lat = vm.dec_double(0);
-            b->p[i].lng = vm.dec_double(1);
-        }
-    }
-    gl.numVerts = nv;
-    gl.verts = b->p;
-}
-void dec_polygon(VM &vm, Poly &P) {
-    uint8_t m = vm.rd.u8();
-    bool coherent = (m & 3) != 0;
-    double clat = 0, clng = 0, scale = 0;
-    if (coherent) {
-        clat = (vm.rd.u16() / 65536.0 - 0.5) * M_PI;
-        clng = (vm.rd.u16() / 65536.0 - 0.5) * 2 * M_PI;
-        if ((m & 3) == 2) clng = (vm.rd.u8() & 1 ? M_PI : -M_PI) + ((int)vm.rd.u8() - 128) * 1e-4;  // antimeridian
-        if ((m & 3) == 3) clat = (vm.rd.u8() & 1 ? M_PI_2 : -M_PI_2) + ((int)vm.rd.u8() - 128) * 1e-3; // polar
-        scale = pow(10.0, -(double)((m >> 2) % 8)) * 0.5;
-    }
-    dec_loop(vm, P.gp.geoloop, P, 10, coherent, clat, clng, scale);
-    int nh = (m >> 5) % 3;
-    P.holes = new Buf<GeoLoop>((size_t)nh);
-    for (int i = 0; i < nh; i++) dec_loop(vm, P.holes->p[i], P, 5, coherent, clat, clng, scale * 0.3);
-    P.gp.numHoles = nh;
-    P.gp.holes = P.holes->p;
-}
-
-// Work bound (not part of the oracle): a polygon whose extent is more than ~40 cell edges at the requested resolution makes
-// the fills iterate over 1e5+ cells (a zero-width "polygon" from the equator to lat 1e19 at res 13 ran for minutes). The
-// resolution is lowered until the extent is below that; invalid resolutions are passed through unchanged.
-int clamp_res(const Poly &P, int res) {
-    if (res < 0 || res > 15) return res;
-    double lo = 1e300, hi = -1e300, wl = 1e300, wh = -1e300, w2l = 1e300, w2h = -1e300;
-    bool wild = false;
-    auto scan = [&](const GeoLoop &g) {
-        for (int i = 0; i < g.numVerts; i++) {
-            double la = g.verts[i].lat, ln = g.verts[i].lng;
-            if (!std::isfinite(la) || !std::isfinite(ln) || fabs(la) > 1.6 || fabs(ln) > 6.3) { wild = true; continue; }
-            lo = fmin(lo, la); hi = fmax(hi, la);
-            wl = fmin(wl, ln); wh = fmax(wh, ln);
-            double l2 = ln < 0 ? ln + 2 * M_PI : ln;
-            w2l = fmin(w2l, l2); w2h = fmax(w2h, l2);
-        }
-    };
-    scan(P.gp.geoloop);
-    for (int h = 0; h < P.gp.numHoles; h++) scan(P.gp.holes[h]);
-    double extent = wild ? 10 : fmax(hi - lo, fmin(wh - wl, w2h - w2l));
-    if (!(extent >= 0)) extent = 0;
-    while (res > 0 && extent / (0.174 * pow(7.0, -res / 2.0)) > 40) res--;
-    return res;
-}
-
-int g_trace_level = 0;
-void trace_poly(const char *fn, const Poly &P, int res, uint32_t flags) {
-    if (g_trace_level < 2) return;
-    fprintf(stderr, "PRE %s res=%d flags=%u outer=[", fn, res, flags);
-    for (int i = 0; i < P.gp.geoloop.numVerts; i++) fprintf(stderr, "(%.17g,%.17g)", P.gp.geoloop.verts[i].lat, P.gp.geoloop.verts[i].lng);
-    fprintf(stderr, "]");
-    for (int h = 0; h < P.gp.numHoles; h++) {
-        fprintf(stderr, " hole=[");
-        for (int i = 0; i < P.gp.holes[h].numVerts; i++) fprintf(stderr, "(%.17g,%.17g)", P.gp.holes[h].verts[i].lat, P.gp.holes[h].verts[i].lng);
-        fprintf(stderr, "]");
-    }
-    fprintf(stderr, "\n");
-}
-
-// a cell set decoded into an exactly-sized block
-void dec_set(VM &vm, std::vector<uint64_t> &v, int maxn) {
-    uint8_t m = vm.rd.u8();
-    int n = vm.rd.u8() % (maxn + 1);
-    switch (m % 4) {
-        case 0:
-            for (int i = 0; i < n; i++) v.push_back(vm.reg());
-            break;
-        case 1: {  // sibling family of a register (compactable)
-            uint64_t h = vm.reg();
-            int res = (int)((h >> 52) & 15);
-            for (int i = 0; i < n; i++) {
-                uint64_t c = h;
-                if (res) {
-                    c &= ~(7ULL << (3 * (15 - res)));
-                    c |= (uint64_t)(i % 7) << (3 * (15 - res));
-                    if (res > 1 && i >= 7) {
-                        c &= ~(7ULL << (3 * (15 - res + 1)));
-                        c |= (uint64_t)((i / 7) % 7) << (3 * (15 - res + 1));
-                    }
-                }
-                v.push_back(c);
-            }
-            break;
-        }
-        case 2:
-            for (int i = 0; i < n; i++) v.push_back(vm.dec_index());
-            break;
-        default: {  // disk around a register (valid, connected) with some members dropped
-            uint64_t h = vm.reg();
-            if (ref::valid_cell(h)) {
-                H3Index out[7] = {0};
-                if (gridDisk(h, 1, out) == E_SUCCESS) {
-                    uint8_t drop = vm.rd.u8();
-                    for (int i = 0; i < 7 && (int)v.size() < n; i++)
-                        if (out[i] && !((drop >> i) & 1)) v.push_back(out[i]);
-                }
-            }
-            break;
-        }
-    }
-}
-
-// ------------------------------------------------------------------ the call dispatcher
-struct Call {
-    int fn;
-    const char *name;
-    uint64_t cls = 0;  // argument classes, mixed into the behaviour key
-    int ncls = 0;
-    bool all_cells_valid = true;
-    // arguments, rendered lazily (only when tracing or reporting)
-    struct A {
-        char t;
-        const char *label;
-        uint64_t u;
-        long long i;
-        double d;
-    } a[48];
-    int na = 0;
-    void push(char t, const char *label, uint64_t u, long long i, double d) {
-        if (na < 48) a[na++] = A{t, label, u, i, d};
-    }
-    std::string d() const {
-        std::string r;
-        for (int k = 0; k < na; k++) {
-            if (k) r += ",";
-            if (a[k].label) { r += a[k].label; r += "="; }
-            if (a[k].t == 'x') r += sfmt("%016llx", (unsigned long long)a[k].u);
-            else if (a[k].t == 'i') r += sfmt("%lld", a[k].i);
-            else r += sfmt("%.17g", a[k].d);
-        }
-        return r;
-    }
-};
-
-#define FN(id, nm)          \
-    Call C;                 \
-    C.fn = id;              \
-    C.name = nm;            \
-    ST.fn_name[id] = nm;
-
-void add_cls(Call &C, int c) {
-    C.cls = C.cls * 7 + (uint64_t)c + 1;
-    C.ncls++;
-}
-void arg_cell(Call &C, uint64_t h) {
-    int c = cell_class(h);
-    add_cls(C, c);
-    if (c == CC_INVALID) C.all_cells_valid = false;
-    C.push('x', nullptr, h, 0, 0);
-}
-void arg_int(Call &C, long long v, bool inDomain) {
-    add_cls(C, inDomain ? 0 : 1);
-    C.push('i', nullptr, 0, v, 0);
-}
-void arg_dbl(Call &C, double v) {
-    add_cls(C, std::isfinite(v) ? 0 : 1);
-    C.push('d', nullptr, 0, 0, v);
-}
-
-// record the result; rc must be a documented code
-void done(Call &C, int rc) {
-    ST.calls++;
-    if (rc < 0 || rc > 15) violation(sfmt("%s(%s) returned %d, which is not one of the documented codes 0..15", C.name, C.d().c_str(), rc));
-    ST.by_fn_rc[C.fn][rc]++;
-    uint64_t key = ((uint64_t)C.fn << 48) ^ ((uint64_t)rc << 40) ^ C.cls;
-    ST.behaviours.insert(key);
-    g_prog_hash = (g_prog_hash ^ key) * 1099511628211ULL;
-    g_prog_nontrivial = true;
-    if (g_trace) g_tracebuf += sfmt("%s(%s)->%d; ", C.name, C.d().c_str(), rc);
-}
-// the documented code for an out-of-domain scalar: any code in `allowed` (bit mask) — never success
-void expect_code(Call &C, int rc, uint32_t allowedMask, const char *why) {
-    ST.table_hits++;
-    if (rc == 0 || !((allowedMask >> rc) & 1))
-        violation(sfmt("%s(%s) returned %d for an out-of-domain argument (%s); documented code mask 0x%x", C.name, C.d().c_str(), rc, why, allowedMask));
-}
-void closure(Call &C, int rc, const uint64_t *cells, size_t n, bool allowNull) {
-    if (rc != 0 || !C.all_cells_valid) return;
-    for (size_t i = 0; i < n; i++) {
-        if (cells[i] == 0 && allowNull) continue;
-        ST.closure_cells++;
-        if (!ref::valid_cell(cells[i]))
-            violation(sfmt("%s(%s) succeeded on valid arguments but output %zu = %016llx is not a valid cell", C.name, C.d().c_str(), i, (unsigned long long)cells[i]));
-    }
-}
-#define M(code) (1u << (code))
-
-const int64_t CAP_DISK = 4000, CAP_SAFE = 800, CAP_CHILDREN = 20000, CAP_POLY = 4000, CAP_PATH = 5000, CAP_UNCOMPACT = 20000;
-
-void op(VM &vm) {
-    uint8_t o = vm.rd.u8();
-    uint8_t dst = vm.rd.u8() & 7;
-    switch (o % 62) {
-        case 0: {
-            FN(0, "latLngToCell");
-            LatLng g = {vm.dec_double(0), vm.dec_double(1)};
-            int res = vm.dec_res();
-            arg_dbl(C, g.lat); arg_dbl(C, g.lng); arg_int(C, res, res >= 0 && res <= 15);
-            H3Index out = 0x5e5e5e5e5e5e5e5eULL;
-            int rc = latLngToCell(&g, res, &out);
-            done(C, rc);
-            bool badRes = res < 0 || res > 15, badLL = !std::isfinite(g.lat) || !std::isfinite(g.lng);
-            if (badRes || badLL) {
-                expect_code(C, rc, (badRes ? M(E_RES_DOMAIN) : 0) | (badLL ? M(E_LATLNG_DOMAIN) : 0), "res outside 0..15 / non-finite coordinate");
-                if (out != 0x5e5e5e5e5e5e5e5eULL) violation(sfmt("latLngToCell(%s) failed with %d but wrote an index", C.d().c_str(), rc));
-            } else {
-                if (rc != 0) violation(sfmt("latLngToCell(%s) failed with %d on finite coordinates and a valid resolution", C.d().c_str(), rc));
-                closure(C, rc, &out, 1, false);
-                if (ref::res_of(out) != res) violation(sfmt("latLngToCell(%s) returned a cell of resolution %d", C.d().c_str(), ref::res_of(out)));
-                vm.R[dst] = out;
-            }
-            break;
-        }
-        case 1: {
-            FN(1, "cellToLatLng");
-            uint64_t h = vm.reg(); arg_cell(C, h);
-            LatLng g;
-            int rc = cellToLatLng(h, &g);
-            done(C, rc);
-            if (rc == 0 && C.all_cells_valid && !(std::isfinite(g.lat) && std::isfinite(g.lng) && fabs(g.lat) <= M_PI_2 + 1e-9 && fabs(g.lng) <= M_PI + 1e-9))
-                violation(sfmt("cellToLatLng(%s) -> (%.17g, %.17g) out of range", C.d().c_str(), g.lat, g.lng));
-            if (C.all_cells_valid && rc != 0) violation(sfmt("cellToLatLng(%s) failed with %d on a valid cell", C.d().c_str(), rc));
-            break;
-        }
-        case 2: {
-            FN(2, "cellToBoundary");
-            uint64_t h = vm.reg(); arg_cell(C, h);
-            Buf<CellBoundary> b(1, 0xA5);
-            int rc = cellToBoundary(h, b.p);
-            done(C, rc);
-            if (rc == 0 && (b.p->numVerts < 0 || b.p->numVerts > MAX_CELL_BNDRY_VERTS)) violation(sfmt("cellToBoundary(%s) numVerts %d", C.d().c_str(), b.p->numVerts));
-            if (C.all_cells_valid && rc != 0) violation(sfmt("cellToBoundary(%s) failed with %d on a valid cell", C.d().c_str(), rc));
-            break;
-        }
-        case 3: {
-            FN(3, "maxGridDiskSize");
-            int k = vm.dec_int(); arg_int(C, k, k >= 0);
-            int64_t sz = -7;
-            int rc = maxGridDiskSize(k, &sz);
-            done(C, rc);
-            if (k < 0) expect_code(C, rc, M(E_DOMAIN), "k < 0");
-            else if (rc != 0 || sz < 1) violation(sfmt("maxGridDiskSize(%d) -> rc %d size %lld", k, rc, (long long)sz));
-            break;
-        }
-        case 4: case 5: case 6: case 7: case 8: {  // the disk family
-            static const char *nm[] = {"gridDisk", "gridDiskDistances", "gridDiskUnsafe", "gridDiskDistancesUnsafe", "gridDiskDistancesSafe"};
-            int w = o % 62 - 4;
-            FN(4 + w, nm[w]);
-            uint64_t h = vm.reg(); int k = vm.dec_k();
-            arg_cell(C, h); arg_int(C, k, k >= 0);
-            int64_t sz = 0;
-            int src = maxGridDiskSize(k, &sz);
-            if (src != 0) sz = 0;  // no documented size exists: a zero-length buffer, the call must fail without writing
-            if (sz > (w == 4 ? CAP_SAFE : CAP_DISK)) { ST.skipped_size++; break; }
-            Buf<H3Index> out((size_t)sz);
-            Buf<int> dist((size_t)sz);
-            int rc;
-            switch (w) {
-                case 0: rc = gridDisk(h, k, out.p); break;
-                case 1: rc = gridDiskDistances(h, k, out.p, dist.p); break;
-                case 2: rc = gridDiskUnsafe(h, k, out.p); break;
-                case 3: rc = gridDiskDistancesUnsafe(h, k, out.p, dist.p); break;
-                default: rc = gridDiskDistancesSafe(h, k, out.p, dist.p); break;
-            }
-            done(C, rc);
-            if (k < 0) { if (w != 4) expect_code(C, rc, M(E_DOMAIN), "k < 0"); else if (rc == 0) violation(sfmt("gridDiskDistancesSafe(%s) succeeded with k<0", C.d().c_str())); break; }
-            if ((w == 0 || w == 1 || w == 4) && C.all_cells_valid && rc != 0) violation(sfmt("%s(%s) failed with %d on a valid origin", C.name, C.d().c_str(), rc));
-            closure(C, rc, out.p, (size_t)sz, true);
-            if (rc == 0 && sz > 1) vm.R[dst] = out.p[1 + vm.rd.u8() % (sz - 1)];
-            break;
-        }
-        case 9: {
-            FN(9, "gridDisksUnsafe");
-            std::vector<uint64_t> set; dec_set(vm, set, 6);
-            int k = vm.dec_k();
-            for (uint64_t h : set) arg_cell(C, h);
-            arg_int(C, k, k >= 0);
-            int64_t sz = 0;
-            if (maxGridDiskSize(k, &sz) != 0) sz = 0;
-            if (sz * (int64_t)set.size() > CAP_DISK) { ST.skipped_size++; break; }
-            Buf<H3Index> in(set.size());
-            if (!set.empty()) memcpy(in.p, set.data(), set.size() * 8);
-            Buf<H3Index> out((size_t)sz * set.size());
-            int rc = gridDisksUnsafe(in.p, (int)set.size(), k, out.p);
-            done(C, rc);
-            if (k < 0 && !set.empty()) expect_code(C, rc, M(E_DOMAIN), "k < 0");
-            if (k >= 0) closure(C, rc, out.p, (size_t)sz * set.size(), true);
-            break;
-        }
-        case 10: {
-            FN(10, "gridRingUnsafe");
-            uint64_t h = vm.reg(); int k = vm.dec_k();
-            if (k < 0) break;  // no documented buffer size for k < 0: outside the premise (DESIGN C12)
-            arg_cell(C, h); arg_int(C, k, true);
-            int64_t sz = k == 0 ? 1 : 6 * (int64_t)k;
-            if (sz > CAP_DISK) { ST.skipped_size++; break; }
-            Buf<H3Index> out((size_t)sz);
-            int rc = gridRingUnsafe(h, k, out.p);
-            done(C, rc);
-            closure(C, rc, out.p, (size_t)sz, false);
-            if (rc == 0) vm.R[dst] = out.p[vm.rd.u8() % sz];
-            break;
-        }
-        case 11: case 12: {  // legacy polyfill
-            bool fill = (o % 62) == 12;
-            FN(fill ? 12 : 11, fill ? "polygonToCells" : "maxPolygonToCellsSize");
-            Poly P; dec_polygon(vm, P);
-            int res = clamp_res(P, vm.dec_res()); uint32_t flags = vm.dec_flags();
-            bool badFlags = flags > 3, badRes = res < 0 || res > 15;  // the legacy functions validate flags like the experimental ones
-            arg_int(C, res, !badRes); arg_int(C, flags, !badFlags);
-            add_cls(C, P.gp.geoloop.numVerts == 0 ? 0 : P.gp.geoloop.numVerts < 3 ? 1 : 2); add_cls(C, P.gp.numHoles);
-            C.push('i', "nv", 0, P.gp.geoloop.numVerts, 0); C.push('i', "holes", 0, P.gp.numHoles, 0);
-            int64_t sz = -1;
-            trace_poly(C.name, P, res, flags);
-            int rc = maxPolygonToCellsSize(&P.gp, res, flags, &sz);
-            if (!fill) {
-                done(C, rc);
-                if (badFlags) expect_code(C, rc, M(E_OPTION_INVALID), "flags outside the containment modes");
-                else if (badRes) expect_code(C, rc, 0xfffe, "res outside 0..15");
-                if (rc == 0 && sz < 0) violation(sfmt("maxPolygonToCellsSize(%s) -> negative size %lld", C.d().c_str(), (long long)sz));
-                break;
-            }
-            if (rc != 0) sz = 0;
-            if (sz > CAP_POLY) { ST.skipped_size++; break; }
-            Buf<H3Index> out((size_t)sz);
-            rc = polygonToCells(&P.gp, res, flags, out.p);
-            done(C, rc);
-            if (badFlags) expect_code(C, rc, M(E_OPTION_INVALID), "flags outside the containment modes");
-            else if (badRes) expect_code(C, rc, 0xfffe, "res outside 0..15");
-            closure(C, rc, out.p, (size_t)sz, true);
-            if (rc == 0)
-                for (int64_t i = 0; i < sz; i++)
-                    if (out.p[i]) { vm.R[dst] = out.p[i]; break; }
-            break;
-        }
-        case 13: case 14: {  // experimental polyfill
-            bool fill = (o % 62) == 14;
-            FN(fill ? 14 : 13, fill ? "polygonToCellsExperimental" : "maxPolygonToCellsSizeExperimental");
-            Poly P; dec_polygon(vm, P);
-            int res = clamp_res(P, vm.dec_res()); uint32_t flags = vm.dec_flags();
-            bool badFlags = flags > 3, badRes = res < 0 || res > 15;
-            arg_int(C, res, !badRes); arg_int(C, flags, !badFlags);
-            add_cls(C, P.gp.geoloop.numVerts == 0 ? 0 : P.gp.geoloop.numVerts < 3 ? 1 : 2); add_cls(C, P.gp.numHoles);
-            C.push('i', "nv", 0, P.gp.geoloop.numVerts, 0); C.push('i', "holes", 0, P.gp.numHoles, 0);
-            int64_t sz = -1;
-            trace_poly(C.name, P, res, flags);
-            int rc = maxPolygonToCellsSizeExperimental(&P.gp, res, flags, &sz);
-            uint32_t mask = (badFlags ? M(E_OPTION_INVALID) : 0) | (badRes ? M(E_RES_DOMAIN) : 0);
-            if (!fill) {
-                done(C, rc);
-                if (mask) expect_code(C, rc, mask, "invalid flags / res outside 0..15");
-                if (rc == 0 && sz < 0) violation(sfmt("maxPolygonToCellsSizeExperimental(%s) -> negative size", C.d().c_str()));
-                break;
-            }
-            if (rc != 0) sz = 0;
-            if (sz > CAP_POLY) { ST.skipped_size++; break; }
-            uint8_t shortBy = vm.rd.u8();
-            int64_t cap = sz;
-            if ((shortBy & 7) == 7 && sz > 0) cap = sz - 1 - (shortBy >> 3) % sz;  // a smaller capacity: must never overrun
-            Buf<H3Index> out((size_t)cap);
-            rc = polygonToCellsExperimental(&P.gp, res, flags, cap, out.p);
-            done(C, rc);
-            if (mask) expect_code(C, rc, mask, "invalid flags / res outside 0..15");
-            closure(C, rc, out.p, (size_t)cap, true);
-            if (rc == 0)
-                for (int64_t i = 0; i < cap; i++)
-                    if (out.p[i]) { vm.R[dst] = out.p[i]; break; }
-            break;
-        }
-        case 15: {
-            FN(15, "cellsToLinkedMultiPolygon");
-            std::vector<uint64_t> set; dec_set(vm, set, 14);
-            for (uint64_t h : set) arg_cell(C, h);
-            Buf<H3Index> in(set.size());
-            if (!set.empty()) memcpy(in.p, set.data(), set.size() * 8);
-            Buf<LinkedGeoPolygon> out(1, 0);
-            int rc = cellsToLinkedMultiPolygon(in.p, (int)set.size(), out.p);
-            done(C, rc);
-            if (rc == 0) destroyLinkedMultiPolygon(out.p);
-            break;
-        }
-        case 16: {
-            FN(16, "degsToRads/radsToDegs");
-            double d = vm.dec_double(2); arg_dbl(C, d);
-            volatile double a = degsToRads(d), b = radsToDegs(d);
-            (void)a; (void)b;
-            done(C, 0);
-            break;
-        }
-        case 17: {
-            FN(17, "greatCircleDistance*");
-            Buf<LatLng> a(1), b(1);
-            a.p->lat = vm.dec_double(0); a.p->lng = vm.dec_double(1); b.p->lat = vm.dec_double(0); b.p->lng = vm.dec_double(1);
-            arg_dbl(C, a.p->lat); arg_dbl(C, a.p->lng); arg_dbl(C, b.p->lat); arg_dbl(C, b.p->lng);
-            volatile double r = greatCircleDistanceRads(a.p, b.p), km = greatCircleDistanceKm(a.p, b.p), m = greatCircleDistanceM(a.p, b.p);
-            (void)r; (void)km; (void)m;
-            done(C, 0);
-            break;
-        }
-        case 18: case 19: case 20: case 21: case 22: {
-            static const char *nm[] = {"getHexagonAreaAvgKm2", "getHexagonAreaAvgM2", "getHexagonEdgeLengthAvgKm", "getHexagonEdgeLengthAvgM", "getNumCells"};
-            int w = o % 62 - 18;
-            FN(18 + w, nm[w]);
-            int res = vm.dec_int(); arg_int(C, res, res >= 0 && res <= 15);
-            double d = -1; int64_t n = -1;
-            int rc = w == 0 ? getHexagonAreaAvgKm2(res, &d) : w == 1 ? getHexagonAreaAvgM2(res, &d) : w == 2 ? getHexagonEdgeLengthAvgKm(res, &d)
-                     : w == 3 ? getHexagonEdgeLengthAvgM(res, &d) : getNumCells(res, &n);
-            done(C, rc);
-            if (res < 0 || res > 15) expect_code(C, rc, M(E_RES_DOMAIN), "res outside 0..15");
-            else {
-                if (rc != 0) violation(sfmt("%s(%d) failed with %d", C.name, res, rc));
-                if (w == 4 && n != ref::num_cells(res)) violation(sfmt("getNumCells(%d) = %lld", res, (long long)n));
-                if (w < 4 && !(d > 0 && std::isfinite(d))) violation(sfmt("%s(%d) = %g", C.name, res, d));
-            }
-            break;
-        }
-        case 23: case 24: case 25: {
-            static const char *nm[] = {"cellAreaRads2", "cellAreaKm2", "cellAreaM2"};
-            int w = o % 62 - 23;
-            FN(23 + w, nm[w]);
-            uint64_t h = vm.reg(); arg_cell(C, h);
-            double d = -1;
-            int rc = w == 0 ? cellAreaRads2(h, &d) : w == 1 ? cellAreaKm2(h, &d) : cellAreaM2(h, &d);
-            done(C, rc);
-            if (C.all_cells_valid && (rc != 0 || !(d > 0 && std::isfinite(d)))) violation(sfmt("%s(%s) -> rc %d area %g on a valid cell", C.name, C.d().c_str(), rc, d));
-            break;
-        }
-        case 26: case 27: case 28: {
-            static const char *nm[] = {"edgeLengthRads", "edgeLengthKm", "edgeLengthM"};
-            int w = o % 62 - 26;
-            FN(26 + w, nm[w]);
-            uint64_t e = vm.reg(); C.push('x', nullptr, e, 0, 0); add_cls(C, isValidDirectedEdge(e) ? 0 : 1);
-            double d = -1;
-            int rc = w == 0 ? edgeLengthRads(e, &d) : w == 1 ? edgeLengthKm(e, &d) : edgeLengthM(e, &d);
-            done(C, rc);
-            if (ref::valid_edge(e) && (rc != 0 || !(d > 0 && std::isfinite(d)))) violation(sfmt("%s(%s) -> rc %d length %g on a valid edge", C.name, C.d().c_str(), rc, d));
-            break;
-        }
-        case 29: {
-            FN(29, "getRes0Cells");
-            if (res0CellCount() != 122) violation("res0CellCount() != 122");
-            Buf<H3Index> out(122);
-            int rc = getRes0Cells(out.p);
-            done(C, rc);
-            if (rc != 0) violation("getRes0Cells failed");
-            closure(C, rc, out.p, 122, false);
-            vm.R[dst] = out.p[vm.rd.u8() % 122];
-            break;
-        }
-        case 30: {
-            FN(30, "getPentagons");
-            int res = vm.dec_res(); arg_int(C, res, res >= 0 && res <= 15);
-            if (pentagonCount() != 12) violation("pentagonCount() != 12");
-            Buf<H3Index> out(12);
-            int rc = getPentagons(res, out.p);
-            done(C, rc);
-            if (res < 0 || res > 15) expect_code(C, rc, M(E_RES_DOMAIN), "res outside 0..15");
-            else {
-                if (rc != 0) violation(sfmt("getPentagons(%d) failed with %d", res, rc));
-                closure(C, rc, out.p, 12, false);
-                vm.R[dst] = out.p[vm.rd.u8() % 12];
-            }
-            break;
-        }
-        case 31: {
-            FN(31, "inspection");
-            uint64_t h = vm.reg(); arg_cell(C, h);
-            int r = getResolution(h), b = getBaseCellNumber(h), v = isValidCell(h), c3 = isResClassIII(h), p = isPentagon(h);
-            int ve = isValidDirectedEdge(h), vv = isValidVertex(h);
-            done(C, 0);
-            if (r != ref::res_of(h) || b != (int)((h >> 45) & 127) || c3 != (r & 1)) violation(sfmt("getResolution/getBaseCellNumber/isResClassIII(%s) = %d/%d/%d", C.d().c_str(), r, b, c3));
-            if ((v != 0) != ref::valid_cell(h)) violation(sfmt("isValidCell(%s) = %d disagrees with the documented layout", C.d().c_str(), v));
-            if (v && (p != 0) != ref::is_pentagon(h)) violation(sfmt("isPentagon(%s) = %d", C.d().c_str(), p));
-            if ((ve != 0) != ref::valid_edge(h)) violation(sfmt("isValidDirectedEdge(%s) = %d disagrees with the documented form", C.d().c_str(), ve));
-            if (vv && ((h >> 59) & 15) != 4) violation(sfmt("isValidVertex(%s) accepts a non-vertex mode", C.d().c_str()));
-            break;
-        }
-        case 32: {
-            FN(32, "stringToH3");
-            int n = vm.rd.u8() % 24;
-            Buf<char> s((size_t)n + 1);
-            uint8_t m = vm.rd.u8();
-            for (int i = 0; i < n; i++) {
-                uint8_t c = vm.rd.u8();
-                s.p[i] = (m & 1) ? "0123456789abcdefABCDEF"[c % 22] : (char)(c ? c : 'x');
-            }
-            s.p[n] = 0;
-            C.push('i', "len", 0, n, 0); add_cls(C, n == 0 ? 0 : (m & 1) ? 1 : 2);
-            H3Index out = 0;
-            int rc = stringToH3(s.p, &out);
-            done(C, rc);
-            if (n == 0 && rc == 0) violation("stringToH3(\"\") succeeded");
-            if (rc == 0) vm.R[dst] = out;
-            break;
-        }
-        case 33: {
-            FN(33, "h3ToString");
-            uint64_t h = vm.reg(); size_t sz = vm.rd.u8() % 33;
-            C.push('x', nullptr, h, 0, 0); C.push('i', "sz", 0, (long long)sz, 0); add_cls(C, sz >= 17 ? 0 : 1);
-            Buf<char> s(sz, 0x5a);
-            int rc = h3ToString(h, s.p, sz);
-            done(C, rc);
-            if (sz < 17) expect_code(C, rc, M(E_MEMORY_BOUNDS), "buffer smaller than 17 bytes");
-            else {
-                if (rc != 0) violation(sfmt("h3ToString(%s) failed with %d", C.d().c_str(), rc));
-                H3Index back = 0;
-                if (stringToH3(s.p, &back) != 0 || back != h) violation(sfmt("h3ToString/stringToH3 round trip failed for %s", C.d().c_str()));
-            }
-            break;
-        }
-        case 34: {
-            FN(34, "cellToParent");
-            uint64_t h = vm.reg(); int pr = vm.dec_res();
-            arg_cell(C, h); arg_int(C, pr, pr >= 0 && pr <= ref::res_of(h));
-            H3Index out = 0;
-            int rc = cellToParent(h, pr, &out);
-            done(C, rc);
-            if (pr < 0 || pr > 15) expect_code(C, rc, M(E_RES_DOMAIN), "parentRes outside 0..15");
-            else if (pr > ref::res_of(h)) expect_code(C, rc, M(E_RES_MISMATCH), "parentRes finer than the cell");
-            else {
-                if (rc != 0) violation(sfmt("cellToParent(%s) failed with %d", C.d().c_str(), rc));
-                closure(C, rc, &out, 1, false);
-                vm.R[dst] = out;
-            }
-            break;
-        }
-        case 35: case 36: {
-            bool cc = (o % 62) == 36;
-            FN(cc ? 36 : 35, cc ? "cellToCenterChild" : "cellToChildrenSize");
-            uint64_t h = vm.reg(); int cr = vm.dec_res();
-            bool ok = cr >= ref::res_of(h) && cr <= 15;
-            arg_cell(C, h); arg_int(C, cr, ok);
-            int64_t n = -1; H3Index out = 0;
-            int rc = cc ? cellToCenterChild(h, cr, &out) : cellToChildrenSize(h, cr, &n);
-            done(C, rc);
-            if (!ok) expect_code(C, rc, M(E_RES_DOMAIN), "childRes coarser than the cell or outside 0..15");
-            else {
-                if (rc != 0) violation(sfmt("%s(%s) failed with %d", C.name, C.d().c_str(), rc));
-                if (cc) { closure(C, rc, &out, 1, false); vm.R[dst] = out; }
-                else if (C.all_cells_valid && n != ref::children_count(h, cr)) violation(sfmt("cellToChildrenSize(%s) = %lld, documented %lld", C.d().c_str(), (long long)n, (long long)ref::children_count(h, cr)));
-            }
-            break;
-        }
-        case 37: {
-            FN(37, "cellToChildren");
-            uint64_t h = vm.reg(); int cr = vm.dec_res();
-            arg_cell(C, h); arg_int(C, cr, cr >= ref::res_of(h) && cr <= 15);
-            int64_t n = 0;
-            if (cellToChildrenSize(h, cr, &n) != 0) break;  // no documented size: the call is outside the premise
-            if (n > CAP_CHILDREN) { ST.skipped_size++; break; }
-            Buf<H3Index> out((size_t)n);
-            int rc = cellToChildren(h, cr, out.p);
-            done(C, rc);
-            closure(C, rc, out.p, (size_t)n, false);
-            if (rc == 0 && n > 0) vm.R[dst] = out.p[vm.rd.u16() % n];
-            break;
-        }
-        case 38: {
-            FN(38, "cellToChildPos");
-            uint64_t h = vm.reg(); int pr = vm.dec_res();
-            arg_cell(C, h); arg_int(C, pr, pr >= 0 && pr <= ref::res_of(h));
-            int64_t pos = -1;
-            int rc = cellToChildPos(h, pr, &pos);
-            done(C, rc);
-            if (pr < 0 || pr > 15) expect_code(C, rc, M(E_RES_DOMAIN), "parentRes outside 0..15");
-            else if (pr > ref::res_of(h)) expect_code(C, rc, M(E_RES_MISMATCH), "parentRes finer than the cell");
-            else if (C.all_cells_valid) {
-                if (rc != 0 || pos != ref::child_pos(h, pr)) violation(sfmt("cellToChildPos(%s) -> rc %d pos %lld, documented %lld", C.d().c_str(), rc, (long long)pos, (long long)ref::child_pos(h, pr)));
-            }
-            break;
-        }
-        case 39: {
-            FN(39, "childPosToCell");
-            uint64_t p = vm.reg(); int cr = vm.dec_res();
-            int pres = ref::res_of(p);
-            long long n = (long long)cr - pres;
-            int64_t hexc = (n >= 0 && n <= 15) ? ref::ipow7((int)n) : 0;
-            int64_t cnt = (n >= 0 && n <= 15 && cr <= 15 && ref::valid_cell(p)) ? ref::children_count(p, cr) : hexc;
-            uint8_t m = vm.rd.u8();
-            int64_t pos;
-            switch (m % 12) {
-                case 0: pos = -1; break;
-                case 1: pos = 0; break;
-                case 2: pos = cnt - 1; break;
-                case 3: pos = cnt; break;
-                case 4: pos = cnt + 1; break;
-                case 5: pos = hexc - 1; break;
-                case 6: pos = hexc; break;
-                case 7: pos = (m & 16) ? INT64_MAX : INT64_MIN; break;
-                case 8: pos = (int64_t)vm.rd.u64(); break;
-                case 9: pos = cnt > 0 ? (int64_t)(vm.rd.u64() % (uint64_t)cnt) : 0; break;
-                case 10: pos = cnt + (int64_t)(vm.rd.u32() % (uint64_t)(hexc - cnt + 1)); break;  // the window between the pentagon and the hexagon count
-                default: pos = vm.rd.u8(); break;
-            }
-            bool badRes = cr < 0 || cr > 15, mism = !badRes && cr < pres;
-            bool badPos = !badRes && !mism && (pos < 0 || pos >= cnt);
-            arg_cell(C, p); arg_int(C, cr, !badRes && !mism); arg_int(C, pos, !badPos);
-            H3Index out = 0;
-            int rc = childPosToCell(pos, p, cr, &out);
-            done(C, rc);
-            if (badRes) expect_code(C, rc, M(E_RES_DOMAIN), "childRes outside 0..15");
-            else if (mism) expect_code(C, rc, M(E_RES_MISMATCH), "childRes coarser than the parent");
-            else if (badPos && (C.all_cells_valid || pos < 0 || pos >= hexc)) expect_code(C, rc, M(E_DOMAIN), "childPos outside 0..cellToChildrenSize-1");
-            else if (C.all_cells_valid) {
-                if (rc != 0 || out != ref::child_at(p, cr, pos)) violation(sfmt("childPosToCell(%s) -> rc %d cell %016llx, documented %016llx", C.d().c_str(), rc, (unsigned long long)out, (unsigned long long)ref::child_at(p, cr, pos)));
-                vm.R[dst] = out;
-            }
-            break;
-        }
-        case 40: {
-            FN(40, "compactCells");
-            std::vector<uint64_t> set; dec_set(vm, set, 24);
-            for (uint64_t h : set) arg_cell(C, h);
-            Buf<H3Index> in(set.size()), out(set.size());
-            if (!set.empty()) memcpy(in.p, set.data(), set.size() * 8);
-            int rc = compactCells(in.p, out.p, (int64_t)set.size());
-            done(C, rc);
-            closure(C, rc, out.p, set.size(), true);
-            if (rc == 0)
-                for (size_t i = 0; i < set.size(); i++)
-                    if (out.p[i]) { vm.R[dst] = out.p[i]; break; }
-            break;
-        }
-        case 41: {
-            FN(41, "uncompactCells");
-            std::vector<uint64_t> set; dec_set(vm, set, 8);
-            int res = vm.dec_res();
-            bool coarser = false, anyNull = false, anyNonNull = false;
-            for (uint64_t h : set) { arg_cell(C, h); if (h == 0) anyNull = true; else { anyNonNull = true; if (ref::res_of(h) > res) coarser = true; } }
-            arg_int(C, res, res >= 0 && res <= 15 && !coarser);
-            Buf<H3Index> in(set.size());
-            if (!set.empty()) memcpy(in.p, set.data(), set.size() * 8);
-            int64_t n = -1;
-            int rc = uncompactCellsSize(in.p, (int64_t)set.size(), res, &n);
-            { Call C2 = C; C2.fn = 42; C2.name = "uncompactCellsSize"; ST.fn_name[42] = C2.name; done(C2, rc);
-              if (coarser || ((res < 0 || res > 15) && anyNonNull))
-                  expect_code(C2, rc, M(E_RES_MISMATCH) | M(E_RES_DOMAIN), "target resolution coarser than an input cell / outside 0..15"); }
-            if (rc != 0) break;
-            if (n > CAP_UNCOMPACT) { ST.skipped_size++; break; }
-            uint8_t shortBy = vm.rd.u8();
-            int64_t cap = n;
-            if ((shortBy & 3) == 3 && n > 0) cap = n - 1 - (shortBy >> 2) % n;
-            Buf<H3Index> out((size_t)cap);
-            rc = uncompactCells(in.p, (int64_t)set.size(), out.p, cap, res);
-            done(C, rc);
-            if (C.all_cells_valid && !anyNull) {
-                if (cap < n) expect_code(C, rc, M(E_MEMORY_BOUNDS), "capacity smaller than uncompactCellsSize");
-                else if (rc != 0) violation(sfmt("uncompactCells(%s) failed with %d at the announced size", C.d().c_str(), rc));
-                if (cap == n) closure(C, rc, out.p, (size_t)cap, false);
-            }
-            if (rc == 0 && cap > 0) vm.R[dst] = out.p[vm.rd.u16() % cap];
-            break;
-        }
-        case 43: {
-            FN(43, "getIcosahedronFaces");
-            uint64_t h = vm.reg(); arg_cell(C, h);
-            int mf = -1;
-            int rc = maxFaceCount(h, &mf);
-            if (rc != 0 || mf < 0 || mf > 5) { Call C2 = C; C2.fn = 44; C2.name = "maxFaceCount"; ST.fn_name[44] = C2.name; done(C2, rc); if (rc == 0) violation(sfmt("maxFaceCount(%s) = %d", C.d().c_str(), mf)); break; }
-            Buf<int> out((size_t)mf, 0x7f);
-            rc = getIcosahedronFaces(h, out.p);
-            done(C, rc);
-            if (C.all_cells_valid && rc != 0) violation(sfmt("getIcosahedronFaces(%s) failed with %d on a valid cell", C.d().c_str(), rc));
-            if (rc == 0 && C.all_cells_valid)
-                for (int i = 0; i < mf; i++)
-                    if (out.p[i] < -1 || out.p[i] > 19) violation(sfmt("getIcosahedronFaces(%s) slot %d = %d", C.d().c_str(), i, out.p[i]));
-            break;
-        }
-        case 45: {
-            FN(45, "areNeighborCells");
-            uint64_t a = vm.reg(), b = vm.reg(); arg_cell(C, a); arg_cell(C, b);
-            int out = -1;
-            int rc = areNeighborCells(a, b, &out);
-            done(C, rc);
-            if (rc == 0 && out != 0 && out != 1) violation(sfmt("areNeighborCells(%s) out=%d", C.d().c_str(), out));
-            break;
-        }
-        case 46: {
-            FN(46, "cellsToDirectedEdge");
-            uint64_t a = vm.reg(), b = vm.reg(); arg_cell(C, a); arg_cell(C, b);
-            H3Index e = 0;
-            int rc = cellsToDirectedEdge(a, b, &e);
-            done(C, rc);
-            if (rc == 0 && C.all_cells_valid && !ref::valid_edge(e)) violation(sfmt("cellsToDirectedEdge(%s) -> %016llx is not a valid edge", C.d().c_str(), (unsigned long long)e));
-            if (rc == 0) vm.R[dst] = e;
-            break;
-        }
-        case 47: case 48: case 49: {
-            static const char *nm[] = {"getDirectedEdgeOrigin", "getDirectedEdgeDestination", "directedEdgeToCells"};
-            int w = o % 62 - 47;
-            FN(47 + w, nm[w]);
-            uint64_t e = vm.reg(); C.push('x', nullptr, e, 0, 0);
-            bool ve = ref::valid_edge(e); add_cls(C, ve ? 0 : 1);
-            Buf<H3Index> out(w == 2 ? 2 : 1);
-            int rc = w == 0 ? getDirectedEdgeOrigin(e, out.p) : w == 1 ? getDirectedEdgeDestination(e, out.p) : directedEdgeToCells(e, out.p);
-            done(C, rc);
-            if (ve) {
-                if (rc != 0) violation(sfmt("%s(%s) failed with %d on a valid edge", C.name, C.d().c_str(), rc));
-                for (size_t i = 0; i < out.n; i++) if (!ref::valid_cell(out.p[i])) violation(sfmt("%s(%s) -> invalid cell %016llx", C.name, C.d().c_str(), (unsigned long long)out.p[i]));
-            }
-            if (rc == 0) vm.R[dst] = out.p[out.n - 1];
-            break;
-        }
-        case 50: {
-            FN(50, "originToDirectedEdges");
-            uint64_t h = vm.reg(); arg_cell(C, h);
-            Buf<H3Index> out(6);
-            int rc = originToDirectedEdges(h, out.p);
-            done(C, rc);
-            if (C.all_cells_valid) {
-                if (rc != 0) violation(sfmt("originToDirectedEdges(%s) failed with %d", C.d().c_str(), rc));
-                for (int i = 0; i < 6; i++) if (out.p[i] && !ref::valid_edge(out.p[i])) violation(sfmt("originToDirectedEdges(%s) slot %d = %016llx", C.d().c_str(), i, (unsigned long long)out.p[i]));
-            }
-            if (rc == 0) vm.R[dst] = out.p[1 + vm.rd.u8() % 5];
-            break;
-        }
-        case 51: {
-            FN(51, "directedEdgeToBoundary");
-            uint64_t e = vm.reg(); C.push('x', nullptr, e, 0, 0);
-            bool ve = ref::valid_edge(e); add_cls(C, ve ? 0 : 1);
-            Buf<CellBoundary> b(1, 0xA5);
-            int rc = directedEdgeToBoundary(e, b.p);
-            done(C, rc);
-            if (ve && (rc != 0 || b.p->numVerts < 2 || b.p->numVerts > 3)) violation(sfmt("directedEdgeToBoundary(%s) -> rc %d numVerts %d", C.d().c_str(), rc, b.p->numVerts));
-            break;
-        }
-        case 52: {
-            FN(52, "cellToVertex");
-            uint64_t h = vm.reg(); int vn = vm.dec_int();
-            int nv = (ref::valid_cell(h) && ref::is_pentagon(h)) ? 5 : 6;
-            arg_cell(C, h); arg_int(C, vn, vn >= 0 && vn < nv);
-            H3Index v = 0;
-            int rc = cellToVertex(h, vn, &v);
-            done(C, rc);
-            if (vn < 0 || vn > 5 || (C.all_cells_valid && vn >= nv)) expect_code(C, rc, M(E_DOMAIN), "vertex number outside the cell's range");
-            else if (C.all_cells_valid) {
-                if (rc != 0 || !isValidVertex(v)) violation(sfmt("cellToVertex(%s) -> rc %d vertex %016llx (isValidVertex=%d)", C.d().c_str(), rc, (unsigned long long)v, isValidVertex(v)));
-            }
-            if (rc == 0) vm.R[dst] = v;
-            break;
-        }
-        case 53: {
-            FN(53, "cellToVertexes");
-            uint64_t h = vm.reg(); arg_cell(C, h);
-            Buf<H3Index> out(6);
-            int rc = cellToVertexes(h, out.p);
-            done(C, rc);
-            if (C.all_cells_valid && rc != 0) violation(sfmt("cellToVertexes(%s) failed with %d", C.d().c_str(), rc));
-            if (rc == 0) vm.R[dst] = out.p[vm.rd.u8() % 6];
-            break;
-        }
-        case 54: {
-            FN(54, "vertexToLatLng");
-            uint64_t v = vm.reg(); C.push('x', nullptr, v, 0, 0);
-            int vv = isValidVertex(v); add_cls(C, vv ? 0 : 1);
-            Buf<LatLng> g(1);
-            g.p->lat = g.p->lng = 1e99;
-            int rc = vertexToLatLng(v, g.p);
-            done(C, rc);
-            if (vv && (rc != 0 || !(fabs(g.p->lat) <= M_PI_2 + 1e-9 && fabs(g.p->lng) <= M_PI + 1e-9))) violation(sfmt("vertexToLatLng(%s) -> rc %d (%g,%g) on a valid vertex", C.d().c_str(), rc, g.p->lat, g.p->lng));
-            break;
-        }
-        case 55: {
-            FN(55, "gridDistance");
-            uint64_t a = vm.reg(), b = vm.reg(); arg_cell(C, a); arg_cell(C, b);
-            int64_t d = -1;
-            int rc = gridDistance(a, b, &d);
-            done(C, rc);
-            if (C.all_cells_valid && ref::res_of(a) != ref::res_of(b)) expect_code(C, rc, M(E_RES_MISMATCH), "cells of different resolutions");
-            if (rc == 0 && d < 0) violation(sfmt("gridDistance(%s) = %lld", C.d().c_str(), (long long)d));
-            break;
-        }
-        case 56: {
-            FN(56, "gridPathCells");
-            uint64_t a = vm.reg(), b = vm.reg(); arg_cell(C, a); arg_cell(C, b);
-            int64_t n = -1;
-            int rc = gridPathCellsSize(a, b, &n);
-            { Call C2 = C; C2.fn = 57; C2.name = "gridPathCellsSize"; ST.fn_name[57] = C2.name; done(C2, rc); }
-            if (rc != 0) break;
-            if (n < 1) violation(sfmt("gridPathCellsSize(%s) = %lld", C.d().c_str(), (long long)n));
-            if (n > CAP_PATH) { ST.skipped_size++; break; }
-            Buf<H3Index> out((size_t)n);
-            rc = gridPathCells(a, b, out.p);
-            done(C, rc);
-            closure(C, rc, out.p, (size_t)n, false);
-            if (rc == 0) vm.R[dst] = out.p[vm.rd.u16() % n];
-            break;
-        }
-        case 58: {
-            FN(58, "cellToLocalIj");
-            uint64_t a = vm.reg(), b = vm.reg(); uint32_t mode = (vm.rd.u8() & 3) ? 0 : vm.rd.u32();
-            arg_cell(C, a); arg_cell(C, b); arg_int(C, mode, mode == 0);
-            Buf<CoordIJ> ij(1);
-            int rc = cellToLocalIj(a, b, mode, ij.p);
-            done(C, rc);
-            if (mode != 0) expect_code(C, rc, M(E_OPTION_INVALID), "mode != 0");
-            break;
-        }
-        case 59: {
-            FN(59, "localIjToCell");
-            uint64_t a = vm.reg(); uint32_t mode = (vm.rd.u8() & 3) ? 0 : vm.rd.u32();
-            Buf<CoordIJ> ij(1);
-            ij.p->i = vm.dec_int(); ij.p->j = vm.dec_int();
-            arg_cell(C, a); arg_int(C, mode, mode == 0); C.push('i', "i", 0, ij.p->i, 0); C.push('i', "j", 0, ij.p->j, 0);
-            H3Index out = 0;
-            int rc = localIjToCell(a, ij.p, mode, &out);
-            done(C, rc);
-            if (mode != 0) expect_code(C, rc, M(E_OPTION_INVALID), "mode != 0");
-            closure(C, rc, &out, 1, false);
-            if (rc == 0 && C.all_cells_valid && ref::res_of(out) != ref::res_of(a)) violation(sfmt("localIjToCell(%s) -> cell of another resolution %016llx", C.d().c_str(), (unsigned long long)out));
-            if (rc == 0) vm.R[dst] = out;
-            break;
-        }
-        case 60: {
-            FN(60, "describeH3Error");
-            int e = vm.dec_int(); arg_int(C, e, e >= 0 && e <= 15);
-            const char *s = describeH3Error((H3Error)e);
-            if (!s) violation(sfmt("describeH3Error(%d) returned NULL", e));
-            volatile size_t len = strlen(s);
-            if (len == 0 || len > 200) violation(sfmt("describeH3Error(%d) returned an implausible string", e));
-            done(C, 0);
-            break;
-        }
-        default: {  // register shuffle: derive a neighbour-ish index without calling the library
-            vm.R[dst] = vm.dec_index();
-            break;
-        }
-    }
-}
-
-}  // namespace
+// libFuzzer entry points around engine/apivm.hpp (decoder, dispatcher and oracle live there).
+// A violation prints "C12-VIOLATION ..." and traps; libFuzzer saves the input as crash-<sha1>, which is the replay
+// file (run the binary with the file as its only argument).
+#include "apivm.hpp"
 
 extern "C" int LLVMFuzzerInitialize(int *, char ***) {
-    if (const char *t = getenv("VERIF_TRACE")) { g_trace = atoi(t) != 0; g_trace_level = atoi(t); }
-    if (const char *f = getenv("VERIF_FRAG")) ST.frag = f;
-    if (const char *k = getenv("VERIF_KNOWN")) {
-        std::string v = k;
-        size_t p = 0;
-        while (p <= v.size()) {
-            size_t q = v.find(',', p);
-            if (q == std::string::npos) q = v.size();
-            if (q > p) { g_known.push_back(v.substr(p, q - p)); g_known_hits.push_back(0); }
-            p = q + 1;
-        }
-    }
-    atexit(dump_fragment);
-    if (const char *msg = ref::selftest()) {
-        fprintf(stderr, "reference model self-test failed: %s\n", msg);
-        abort();
-    }
+    apivm::init_from_env();
+    atexit(apivm::dump_fragment);
     return 0;
 }
 
 extern "C" int LLVMFuzzerTestOneInput(const uint8_t *data, size_t size) {
-    // the library has no global state to reset (that is property C18); the VM state is local
-    VM vm(data, size);
-    ST.execs++;
-    bool sample = ST.samples.size() < 24 && (ST.execs % 997 == 1 || ST.execs < 4);
-    bool saved = g_trace;
-    if (sample) g_trace = true;
-    g_tracebuf.clear();
-    g_prog_hash = 1469598103934665603ULL;
-    g_prog_nontrivial = false;
-    for (int i = 0; i < 8; i++) vm.R[i] = 0;
-    for (int i = 0; i < 8; i++) vm.R[i] = vm.dec_index();
-    int ncalls = 0;
-    while (!vm.rd.empty() && ncalls < 12) {
-        struct timespec t0, t1;
-        uint8_t opc = vm.rd.i < vm.rd.n ? vm.rd.p[vm.rd.i] % 62 : 63;
-        clock_gettime(CLOCK_MONOTONIC, &t0);
-        op(vm);
-        clock_gettime(CLOCK_MONOTONIC, &t1);
-        ST.ns_by_op[opc] += (uint64_t)((t1.tv_sec - t0.tv_sec) * 1000000000LL + (t1.tv_nsec - t0.tv_nsec));
-        ncalls++;
-    }
-    if (g_prog_nontrivial) {
-        ST.nontrivial_programs++;
-        if (ST.traces.size() < 4000000) ST.traces.insert(g_prog_hash);
-    }
-    if (sample && !g_tracebuf.empty()) ST.samples.push_back(g_tracebuf.substr(0, 900));
-    if (g_trace && !sample) fprintf(stderr, "TRACE %s\n", g_tracebuf.c_str());
-    g_trace = saved;
+    // the library has no global state to reset (that is property C18); the VM state is local to the call
+    apivm::run_program(data, size);
     return 0;
 }
